@@ -234,9 +234,9 @@ func verifC14Gate() {
 	n := verifChoice("tables", 3)
 	var names []string
 	for k := 0; k < n; k++ {
-		names = append(names, "t"+verifString(fmt.Sprintf("n%d", k), 1))
+		names = append(names, verifString(fmt.Sprintf("n%d", k), 2)) // fully symbolic: no name is special
 	}
-	rev := "t" + verifString("rev", 1)
+	rev := verifString("rev", 2)
 	var revT *migrate.TableIdent
 	if verifBool("hasRevT") {
 		revT = &migrate.TableIdent{Name: rev}
@@ -251,6 +251,14 @@ func verifC14Gate() {
 	} else {
 		verifReach("dirty")
 		verifAssert(errors.As(err, &nce), "a database holding any user table is not clean, whatever else it holds")
+	}
+	// the dev-database gate proper: Snapshot refuses whatever is not empty, whatever the tables are called
+	restore, err := drv.Snapshot(context.Background())
+	if n == 0 {
+		verifAssert(err == nil && restore != nil, "an empty dev database is accepted")
+	} else {
+		verifReach("refused")
+		verifAssert(restore == nil && errors.As(err, &nce), "a dev database holding any table is refused")
 	}
 }
 
